@@ -571,6 +571,112 @@ def stage_chain(t):
             return out
 
 
+VIEW_NATIVE_TEST = r"""
+// generated by /verif (mir2smt replay for C13): `sfs view` with several options equals the chain of
+// single-option invocations in the documented order, masks exactly the first and last cell, and a
+// normalized spectrum sums to one
+use std::{path::PathBuf, process::Command};
+
+fn sfs(args: &[String]) -> Vec<u8> {
+    let out = Command::new(env!("CARGO_BIN_EXE_sfs")).args(args).env("SFS_ALLOW_STDIN", "1").stdin(std::process::Stdio::null()).output().expect("sfs runs");
+    assert!(out.status.success(), "sfs {args:?} failed: {}", String::from_utf8_lossy(&out.stderr));
+    out.stdout
+}
+
+fn values(text: &[u8]) -> Vec<f64> {
+    let s = String::from_utf8(text.to_vec()).unwrap();
+    s.lines().nth(1).unwrap_or("").split_whitespace().map(|x| x.parse().unwrap()).collect()
+}
+
+#[test]
+fn kv_view_is_chain_of_steps() {
+    let dir = std::env::temp_dir().join(format!("kv_view_{}", std::process::id()));
+    std::fs::create_dir_all(&dir).unwrap();
+    let file = |name: &str| -> PathBuf { dir.join(name) };
+    // (shape, marginalize-remove, project-shape when marginalized, project-shape when not)
+    let cases: Vec<(Vec<usize>, Option<&str>, Option<&str>, Option<&str>)> = vec![
+        (vec![5], None, None, Some("3")),
+        (vec![4], None, None, None),
+        (vec![3, 5], Some("0"), Some("3"), Some("3,3")),
+        (vec![3, 5], Some("1"), Some("2"), Some("2,4")),
+        (vec![1, 3], None, None, Some("1,3")),
+        (vec![1, 3], Some("0"), Some("2"), Some("1,2")),
+        (vec![3, 1], Some("0"), None, Some("2,1")),
+        (vec![3, 1, 5], Some("0"), Some("1,3"), Some("2,1,3")),
+        (vec![2, 3, 2], Some("2,0"), Some("2"), Some("2,2,2")),
+        (vec![1], None, None, None),
+        (vec![1, 1], None, None, None),
+    ];
+    for (shape, marg, proj_m, proj_n) in cases {
+        let n: usize = shape.iter().product();
+        for scale in [1.0f64, 0.0] {
+            // values: distinct dyadic fractions; with scale 0.0 the input is already normalized
+            let raw: Vec<f64> = (0..n).map(|i| (i * i + 3 * i + 2) as f64 * 0.125).collect();
+            let total: f64 = raw.iter().sum();
+            let vals: Vec<f64> = if scale == 0.0 { raw.iter().map(|x| x / total).collect() } else { raw };
+            let header = format!("#SHAPE=<{}>", shape.iter().map(|d| d.to_string()).collect::<Vec<_>>().join("/"));
+            let body = vals.iter().map(|x| format!("{x:.17e}")).collect::<Vec<_>>().join(" ");
+            let input = file("in.txt");
+            std::fs::write(&input, format!("{header}\n{body}\n")).unwrap();
+            for mask_bits in 0..16u32 {
+                let proj = if mask_bits & 1 != 0 { proj_m } else { proj_n };
+                let steps: Vec<Vec<String>> = [
+                    (mask_bits & 1 != 0).then(|| marg.map(|m| vec!["--marginalize-remove".to_string(), m.to_string()])).flatten(),
+                    (mask_bits & 2 != 0).then(|| proj.map(|p| vec!["--project-shape".to_string(), p.to_string()])).flatten(),
+                    (mask_bits & 4 != 0).then(|| vec!["--mask-monomorphic".to_string()]),
+                    (mask_bits & 8 != 0).then(|| vec!["--normalize".to_string()]),
+                ]
+                .into_iter()
+                .flatten()
+                .collect();
+                if steps.is_empty() || (mask_bits & 1 != 0 && marg.is_none()) || (mask_bits & 2 != 0 && proj.is_none()) {
+                    continue;
+                }
+                let mut combined: Vec<String> = vec!["view".into(), "--precision".into(), "15".into()];
+                combined.extend(steps.iter().flatten().cloned());
+                combined.push(input.display().to_string());
+                let combined_out = values(&sfs(&combined));
+                // the chain: npy between the steps (exact), text at the end
+                let mut cur = input.clone();
+                let mut chain_out = Vec::new();
+                for (k, step) in steps.iter().enumerate() {
+                    let last = k + 1 == steps.len();
+                    let next = file(&format!("step{k}.npy"));
+                    let mut a: Vec<String> = vec!["view".into(), "--precision".into(), "15".into()];
+                    a.extend(step.iter().cloned());
+                    if !last {
+                        a.extend(["-O".to_string(), "npy".to_string(), "-o".to_string(), next.display().to_string()]);
+                    }
+                    a.push(cur.display().to_string());
+                    let out = sfs(&a);
+                    if last {
+                        chain_out = values(&out);
+                    }
+                    cur = next;
+                }
+                assert_eq!(combined_out.len(), chain_out.len(), "shape {shape:?} options {steps:?}: lengths differ");
+                for (i, (a, b)) in combined_out.iter().zip(&chain_out).enumerate() {
+                    assert!((a.is_nan() && b.is_nan()) || a == b || (a - b).abs() <= 1e-12 * b.abs().max(1.0), "shape {shape:?}: view {steps:?} gives {a} in cell {i}, the chain of single steps gives {b}");
+                }
+                if mask_bits & 8 != 0 {
+                    let sum: f64 = combined_out.iter().sum();
+                    assert!((sum - 1.0).abs() < 1e-9 || combined_out.iter().all(|x| !x.is_finite() || *x == 0.0), "shape {shape:?}: view {steps:?} is normalized but sums to {sum}");
+                }
+                if mask_bits == 4 {
+                    let m = combined_out.len();
+                    for (i, (got, want)) in combined_out.iter().zip(&vals).enumerate() {
+                        let expect = if i == 0 || i + 1 == m { 0.0 } else { *want };
+                        assert!((got - expect).abs() <= 1e-12, "shape {shape:?}: --mask-monomorphic leaves {got} in cell {i}, expected {expect}");
+                    }
+                }
+            }
+        }
+    }
+    let _ = std::fs::remove_dir_all(&dir);
+}
+"""
+
+
 def task_view_pipeline(scratch, tier, seed, logdir):
     """C13: on every path of View::run that reaches the writer, the spectrum written is
     normalize?(mask?(project?(marginalize?(read)))) with each stage guarded by its own option."""
@@ -674,6 +780,11 @@ def task_view_pipeline(scratch, tier, seed, logdir):
             ob.run(uf_equal_query(t, t), "unsat", 20)
     except (LookupError, ValueError, RuntimeError, KeyError, IndexError, AttributeError) as e:
         ob.fail("inconclusive", f"translator: {type(e).__name__}: {e}")
+    if ob.d["status"] == "inconclusive":
+        # View::run is not of a recognised form (e.g. a stage moved into a library function): the
+        # statement itself is then run against the real binary (combined = chain of single steps, mask,
+        # normalisation) and only a failing run makes it a violation
+        ob.d["native_test"] = dict(crate="sfs-cli", file="cli/tests/kv_view_is_chain_of_steps.rs", name="kv_view_is_chain_of_steps", code=VIEW_NATIVE_TEST, integration=True)
     return [ob.done()]
 
 
@@ -1702,6 +1813,24 @@ def task_read_site_wiring(scratch, tier, seed, logdir):
                 ob.fail("violation", "a record that was read is answered with Done")
         if ends != {"error", "done"}:
             ob.fail("inconclusive", f"Error / Done arms found: {sorted(ends)}")
+        # one record per call, no state besides the per-record scratch
+        hist = []
+        extra = sorted(set(fld) - {"reader", "sample_map", "counts", "totals", "projection", "skipped_samples"})
+        if extra:
+            hist.append("the site reader carries state besides its per-record scratch: " + ", ".join(extra))
+        for p in paths:
+            if p.end not in ("return", "loopback"):
+                continue
+            names = [e[0] for e in p.state.events]
+            n_rg = sum(1 for n in names if re.search(r"Reader>::read_genotypes$", n))
+            in_sample_loop = any(re.search(r"<Zip<.*> as Iterator>::next$", n) for n in names)
+            if n_rg != 1:
+                hist.append(f"a path through read_site asks the genotype reader for {n_rg} records")
+            if p.end == "loopback" and not in_sample_loop:
+                hist.append("read_site loops over records: a record can be consumed without being answered")
+        if hist:
+            ob.fail("violation", " | ".join(sorted(set(hist))))
+            ob.d["native_test"] = dict(crate="sfs-core", file="core/src/input/site/reader.rs", name="kv_read_site_one_record_per_call", code=READ_SITE_SEQ_NATIVE_TEST)
         if not {"standard", "projected"} <= seen:
             ob.fail("inconclusive", f"arms found: {sorted(seen)}")
         ob.d["nonvacuous"] = {"standard", "projected"} <= seen
@@ -1741,6 +1870,69 @@ def task_read_site_wiring(scratch, tier, seed, logdir):
         ob.fail("inconclusive", f"translator: {type(e).__name__}: {e}")
     out.append(ob.done())
     return out
+
+
+READ_SITE_SEQ_NATIVE_TEST = r"""
+    struct KvSeq {
+        samples: Vec<Sample>,
+        records: Vec<(String, usize, Vec<genotype::Result>)>,
+        next: usize,
+    }
+    impl genotype::Reader for KvSeq {
+        fn current_contig(&self) -> &str {
+            &self.records[self.next.saturating_sub(1).min(self.records.len() - 1)].0
+        }
+        fn current_position(&self) -> usize {
+            self.records[self.next.saturating_sub(1).min(self.records.len() - 1)].1
+        }
+        fn read_genotypes(&mut self) -> ReadStatus<Vec<genotype::Result>> {
+            match self.records.get(self.next) {
+                Some(r) => {
+                    self.next += 1;
+                    ReadStatus::Read(r.2.clone())
+                }
+                None => ReadStatus::Done,
+            }
+        }
+        fn samples(&self) -> &[Sample] {
+            &self.samples
+        }
+    }
+
+    #[test]
+    fn kv_read_site_one_record_per_call() {
+        use crate::input::genotype::Genotype::{One, Two, Zero};
+        let g = |a, b, c| vec![genotype::Result::Genotype(a), genotype::Result::Genotype(b), genotype::Result::Genotype(c)];
+        // contigs / positions that repeat, go backwards and restart; identical and different genotypes
+        let records = vec![
+            ("c1".to_string(), 8usize, g(Zero, One, Two)),
+            ("c1".to_string(), 8, g(One, One, Zero)),
+            ("c1".to_string(), 9, g(One, One, Zero)),
+            ("c2".to_string(), 9, g(Two, Two, Two)),
+            ("c2".to_string(), 3, g(Zero, Zero, One)),
+            ("c3".to_string(), 3, g(Zero, Zero, One)),
+            ("c3".to_string(), 3, g(Zero, Zero, One)),
+            ("c3".to_string(), 4, g(Two, Zero, Zero)),
+        ];
+        let names = ["a", "b", "c"];
+        let map = || sample::Map::from_iter([("a", Some("p")), ("b", Some("q")), ("c", Some("p"))].map(|(s, p)| (s.to_string(), p.map(str::to_string))));
+        let mk = |recs: Vec<(String, usize, Vec<genotype::Result>)>| KvSeq { samples: names.iter().map(|n| Sample::from(*n)).collect(), records: recs, next: 0 };
+        let mut shared = Reader::new_unchecked(Box::new(mk(records.clone())), map(), None);
+        for (i, rec) in records.iter().enumerate() {
+            let mut alone = Reader::new_unchecked(Box::new(mk(vec![rec.clone()])), map(), None);
+            let want = match alone.read_site() {
+                ReadStatus::Read(Site::Standard(c)) => c.as_ref().to_vec(),
+                _ => panic!("record {i} alone is not a standard site"),
+            };
+            match shared.read_site() {
+                ReadStatus::Read(Site::Standard(c)) => assert_eq!(c.as_ref(), &want[..], "call {i} of read_site does not answer record {i} ({} {})", rec.0, rec.1),
+                ReadStatus::Done => panic!("call {i} of read_site says Done although record {i} ({} {}) had not been answered", rec.0, rec.1),
+                _ => panic!("call {i} of read_site does not answer record {i} with a standard site"),
+            }
+        }
+        assert!(matches!(shared.read_site(), ReadStatus::Done), "after one call per record the reader is not done");
+    }
+"""
 
 
 READ_SITE_NATIVE_TEST = r"""
